@@ -26,3 +26,9 @@ CHECKS["C18"] = dict(
     rule="(a) complete reachable state graph of the real LRU cache for capacities 1..3(4) over universes of capacity+2 keys, every Get/Put from every state, successor = replay on a fresh real cache, compared with a sequential LRU model; (b) for EVERY program of T threads x n ops over {Get,Put} x 3 colliding keys (modulo thread permutation) and capacity 1,2: every schedule of the real lruCache under a cooperative scheduler (scheduling points at every lock acquisition; statement-level points with preemption bound 2 as soon as any statement runs outside a critical section), each call/return history checked for linearizability against the LRU model by brute force, plus structural invariants and deadlock detection; (c) the same for the caching Verifier against plain verification; (d) free-running -race pass. Non-trivial = program in which two threads touch the same key",
     assumptions=["Go memory model below the race detector's happens-before is not modelled", "2-3 threads, <=3 operations each"],
 )
+
+CHECKS["C09"] = dict(
+    bin="c09", level="model_checking", engine="hist",
+    rule="explicit-state BFS over operation histories of the REAL ed25519.BatchVerifier (alphabet: Add/AddWithOptions/AddExpanded/AddExpandedWithOptions of ~20 crafted entry kinds x option sets, ForceNoPublicKeyExpansion, Reset, Verify, VerifyBatchOnly with three entropy readers; successor = replay on a fresh object + one op; state key = digest of every field of the real object), macro histories with batch sizes on both sides of the 94-entry expansion limit and the 190/500/800-term multiscalar limits, the complete reachable LRU-state graph of the caching Verifier for capacities 1..3(4), and expanded-vs-single verification on every (case, option set). Oracle = the library's own single-signature verification of each entry (documented panic -> false), as the property states. Non-trivial = history with a non-empty batch / non-initial cache state",
+    assumptions=["batch soundness error 2^-125 with the fixed entropy streams", "crafted-input expectations (vacuity guards) are evaluated with single verification, whose own correctness is C01"],
+)
